@@ -35,7 +35,7 @@ SITE_CARRIERS: dict[tuple[str, str, str], tuple[str, str]] = {
     ("AsyncForwardHTTPConnection.__init__", "AsyncHTTPConnection", "ssl_context"): ("proxy_ssl_context", "the inner connection is the hop to the proxy: it uses the proxy's TLS configuration"),
     ("AsyncTunnelHTTPConnection.__init__", "AsyncHTTPConnection", "ssl_context"): ("proxy_ssl_context", "the inner connection is the hop to the proxy: it uses the proxy's TLS configuration"),
 }
-# omissions confirmed by reading, with the reason
+# omissions confirmed by reading, with the reason; at these sites the keyword must NOT be passed either
 OMITTED_OK: dict[tuple[str, str, str], str] = {
     ("AsyncTunnelHTTPConnection.__init__", "AsyncHTTPConnection", "http1"): "the hop to the proxy always speaks HTTP/1.1 (CONNECT); the flags apply to the tunnelled connection",
     ("AsyncTunnelHTTPConnection.__init__", "AsyncHTTPConnection", "http2"): "the hop to the proxy always speaks HTTP/1.1 (CONNECT); the flags apply to the tunnelled connection",
@@ -176,6 +176,10 @@ def plumbing(ctx: Context, rule: str, params: T.Iterable[str]) -> None:
                                        f"the new connection silently runs with the default `{K}`")
                             continue
                         npass += 1
+                        must_omit = OMITTED_OK.get((site[0], site[1], K))
+                        if must_omit is not None:
+                            rep.ob(rule, key, False, where(f, n), f"{f.short} passes `{K}=` to {callee.name}, which must keep its default there: {must_omit}")
+                            continue
                         ok_terms = {f"self._{K}", K} | CARRIERS.get(K, set())
                         sc = SITE_CARRIERS.get((site[0], site[1], K))
                         if sc:
